@@ -82,6 +82,7 @@ type Obligation struct {
 	Models  []string // terms to fetch from the model on sat
 	Note    string
 	Inputs  map[string]Val // entry values of the function's parameters
+	Results []Val          // return values (post obligations)
 
 	// filled by solver
 	Result string // unsat | sat | unknown | timeout | error
